@@ -1371,7 +1371,8 @@ Hwrite(int32 access_id, int32 length, const void *data)
     /* check for a "new" element and make it appendable if so.
        Does this mean every element is by default appendable? */
     if (access_rec->new_elem == TRUE) {
-        Hsetlength(access_id, length); /* make the initial chunk of data */
+        if (Hsetlength(access_id, length) == FAIL) /* make the initial chunk of data */
+            HGOTO_ERROR(DFE_INTERNAL, FAIL);
         access_rec->appendable = TRUE; /* make it appendable */
     }                                  /* end if */
 
